@@ -116,50 +116,80 @@ def clause_negative_index(facts, rep):
 
 
 def clause_wrapper(facts, rep):
+    """the public GetOnDemand(json, path, target): evaluated (sv/minterp.py) for every outcome of the scanner - a negative
+    result (each error code) must leave `target` empty and return exactly that error class; a non-negative start s with
+    end position p must leave target == [s, p) of the text and return no error.  Whatever the branch order and locals."""
+    from ..minterp import Interp, Unsupported, UndefinedBehaviour
     n = 0
+    errs = facts.enum_values()
     for f in facts.functions:
-        if f.qn != 'sonic_json::GetOnDemand':
+        if f.qn != 'sonic_json::GetOnDemand' or len(f.params) != 3:
             continue
         rep.fn(f)
+        bad = None
+        cnt = 0
+        BASE = 0x5000
+        try:
+            for start, pos in [(-c, p_) for c in sorted(set(v for k_, v in errs.items() if k_.startswith('kParseError') and 0 < v < 64))[:12] for p_ in (0, 7)] + \
+                    [(0, 1), (0, 5), (3, 9), (17, 18), (40, 41)]:
+                state = {'target': ('sv', 'STALE', 0x9000, 5)}
 
-        def gen_edge(b, cond, sense):
-            c = strip_expect(cond)
-            if c is not None and c.get('k') == 'bin' and c['op'] in ('<', '>=') and strip(c['l']).get('name') == 'start' and cval(c['r']) == 0:
-                neg = (c['op'] == '<') == sense
-                return ['neg'] if neg else ['nonneg']
-            return []
-
-        def gen_stmt(s):
-            for e in walk(s):
-                if e.get('k') == 'call' and e.get('opcall') == '=' and strip(e['args'][0]).get('name') == 'target':
-                    rhs = e['args'][1]
-                    if any(x.get('k') == 'str' and x.get('bytes') == [] for x in walk(rhs)):
-                        return ['cleared']
-            return []
-        M = Must(f, gen_edge=gen_edge, gen_stmt=gen_stmt)
-        for bid, i, s, e in f.walk():
-            if e.get('k') == 'call' and e.get('opcall') == '=' and strip(e['args'][0]).get('name') == 'target':
-                st = M.at(bid, i)
-                if st is None:
-                    continue
-                rhs = e['args'][1]
-                if any(x.get('k') == 'ref' and x.get('name') == 'start' for x in walk(rhs)):
-                    n += 1
-                    rep.check('nonneg' in st, 'E2.slice', f.qn, show(e)[:70], locline(e['loc']),
-                              'the slice may be built only from a non-negative start', facts.config)
-        for bid, i, s in f.stmts():
-            s_ = strip(s)
-            if s_.get('k') == 'ret':
-                st = M.at(bid, i)
-                if st is None:
-                    continue
-                if 'neg' in st:
-                    n += 1
-                    rep.check('cleared' in st, 'E2.slice', f.qn, show(s_)[:60], locline(s_['loc']),
-                              'on error the target slice must be cleared before returning', facts.config)
-                    neg = any(x.get('k') == 'un' and x['op'] == '-' and strip(x['e']).get('name') == 'start' for x in walk(s_))
-                    rep.check(neg, 'E2.slice', f.qn, 'error code = -start', locline(s_['loc']), 'the negative result is the negated error code', facts.config)
-    rep.require(n >= 2, 'C10: wrapper obligations found: %d' % n)
+                def hook(e, args, env, members, start=start, pos=pos):
+                    nm = e.get('cname') or ''
+                    if e.get('k') == 'ctor':
+                        cd = e.get('cdiag') or ''
+                        if 'basic_string_view' in cd or 'StringView' in cd:
+                            if len(args) == 2:
+                                return ('sv', None, args[0], args[1])
+                            if len(args) == 1 and isinstance(args[0], bytes):
+                                return ('sv', args[0].decode('latin-1'), 0x7000, len(args[0]))
+                            if len(args) == 1:
+                                return args[0]
+                            if not args:
+                                return ('sv', '', 0, 0)
+                        if 'ParseResult' in cd:
+                            return ('PR',) + tuple(args)
+                        if 'SkipScanner' in cd:
+                            return ('SCAN',)
+                        return None
+                    if nm == 'operator=' and len(args) == 2 and isinstance(args[1], tuple) and args[1] and args[1][0] == 'sv':
+                        state['target'] = args[1]
+                        return args[1]
+                    if nm == 'data':
+                        return BASE
+                    if nm in ('size', 'length'):
+                        return 64
+                    if nm == 'GetOnDemand' and len(args) == 3:
+                        # the position is handed over by reference: bind it in the caller's frame
+                        a1 = strip(e['args'][1])
+                        if a1 is not None and a1.get('k') == 'ref':
+                            env[a1['id']] = pos
+                        return start
+                    return None
+                it = Interp(f, facts, call_hook=hook)
+                env = {f.params[0]['id']: ('sv', 'JSON', BASE, 64), f.params[1]['id']: 'PATH', f.params[2]['id']: state['target']}
+                r = it.run(env, {})[0]
+                cnt += 1
+                tgt = state['target']
+                if not (isinstance(r, tuple) and r and r[0] == 'PR' and len(r) == 3):
+                    raise Unsupported('result of the wrapper is %r' % (r,))
+                if start < 0:
+                    if tgt[3] != 0 or r[1] != -start:
+                        bad = 'scanner result %d (error), position %d: target is left as %s (length %d) and the returned error is %s; expected an empty slice and error %d' % (
+                            start, pos, 'the stale value' if tgt[1] == 'STALE' else 'a slice', tgt[3], r[1], -start)
+                        break
+                else:
+                    if (tgt[2], tgt[3]) != (BASE + start, pos - start) or r[1] != 0 or r[2] != pos:
+                        bad = 'scanner result start %d, position %d: target = (text + %s, %s), result (%s, %s); expected (text + %d, %d), (0, %d)' % (
+                            start, pos, tgt[2] - BASE if isinstance(tgt[2], int) else tgt[2], tgt[3], r[1], r[2], start, pos - start, pos)
+                        break
+        except UndefinedBehaviour as ex:
+            bad = 'undefined behaviour: %s' % ex
+        except Unsupported as ex:
+            raise AnalysisBroken('C10: the GetOnDemand wrapper cannot be evaluated: %s' % ex)
+        n += 1
+        rep.check(bad is None, 'E2.slice', f.qn, 'target slice / error for every scanner outcome (%d evaluated)' % cnt, f.loc, bad or '', facts.config)
+    rep.require(n >= 1, 'C10: wrapper obligations found: %d' % n)
     m = 0
     for f in facts.functions:
         if f.short == 'parseOnDemandImpl' and f.cls_qn == 'sonic_json::GenericDocument':
